@@ -773,13 +773,36 @@ def run(ctx):
         "impl_wall_s": round(t_impl, 1),
         "race_detector": race if race is not None else "not run in the quick tier (thorough tier: -race build of the driver on the burst scenarios)",
         "samples": [{"driver_input": sc.lines()[:40]} for sc in (bursts[:1] + seqs[:1])],
+        "corpus_scenarios": len([sc for sc in bursts if sc.id.startswith("c_")]),
+        "theorem_status": {
+            "full (every reachable configuration, any number of sessions/topics/instances, any interleaving)": [
+                "c14_inflight_never_low", "c14_reply_at_most_once", "c14_reply_conserved_stepwise", "c14_quiescent_symmetry",
+                "c14_symmetry_modulo_detach", "c14_attached_listed", "c14_terminated_detached", "c14_online_restored",
+                "c14_deleted_stays_deleted", "c14_deleted_refuses", "c14_deleted_load_fails", "c14_deleted_not_running",
+                "c14_deleted_sessions_detached"],
+            "refuted by a witness schedule replayed on the real code": [
+                "c14_inflight_balance_statement (c14_inflight_balance_refuted, corpus/C14/01)",
+                "c14_reply_exactly_one_statement (c14_reply_exactly_one_refuted, corpus/C14/03)",
+                "c14_no_stuck_statement (c14_no_stuck_refuted_lost_leave corpus/C14/02, c14_no_stuck_refuted_nil_done corpus/C14/01)"],
+            "partial (on the executions that avoid exactly the refuting steps)": [
+                "c14_inflight_balance_partial (reach_safe: no load failure of an instance with a queued termination request)",
+                "c14_reply_exactly_one_partial, c14_reply_at_quiescence_partial (reachI_ok: none of the three steps of `lossy`)",
+                "c14_no_stuck_partial (reach_safe and no request in a queue of an instance whose goroutine is gone)"],
+            "tested in support, NOT proved": [
+                "last clause of the property (shared data touched only under its lock / atomic): Go race detector on the burst scenarios, thorough tier",
+                "account deletion, p2p, 'me', channels, presence, bounded channel capacities: burst driver + laws only"]},
         "trusted_base": [
-            "harness/overlay/server/zz_verif_c14_test.go: reader/writer goroutines standing in for the websocket loops (hdl_websock.go:39-145), quiescence by goroutine-state snapshot (vQuiescent of the topic driver) + pending-request counter, direct field reads at quiescence",
+            "harness/overlay/server/zz_verif_c14_test.go: reader/writer goroutines standing in for the websocket loops (hdl_websock.go:39-145); quiescence = every goroutine parked in a receive/select + hub/topic queues empty + no request pending (runtime.Stack snapshot, as vQuiescent of the topic driver); a hang = every goroutine parked while a request is pending or a goroutine sits in a send/lock/semaphore, in 20 consecutive snapshots (no wall-clock guess); goroutines diagnosed as parked for ever are reported once and then ignored; direct field reads at quiescence",
             "harness/overlay/server/db/memverif: in-memory adapter (store contract modelled, not verified)",
-            "tools/props/c14.py laws: python restatement of the property on the driver's output",
-            "Lifecycle.v scope: group topics, owners delete, unbounded FIFO queues (real buffers: hub.join 256, hub.unreg 256, topic.reg/unreg 256, meta 64, exit 1, session.detach 64): deadlocks that need a full buffer are outside the model; hub and topic handler bodies are atomic steps; account deletion, p2p, 'me', channels, presence are exercised by the driver only",
+            "tools/props/c14.py laws: python restatement of the property on the driver's output; laws with a circumstance in their name are the narrow forms of reproduced defects (findings/C14.md, KNOWN_FINDINGS.txt) - a failure outside these circumstances keeps the general name and is a violation",
+            "Lifecycle.v scope: group topics, owners delete, unbounded FIFO queues (real buffers: hub.join 256, hub.unreg 256, topic.reg/unreg 256, meta 64, exit 1, session.detach 64, session.stop 1): deadlocks that need a full buffer are outside the model; hub and topic handler bodies are atomic steps; account deletion, p2p, 'me', channels, presence are exercised by the driver only",
+            "sequential schedules (one request per burst) are compared exactly with the extracted model; concurrent bursts are judged by the laws only (the model's interleavings are quantified over in the theorems, not enumerated by the run)",
             "last clause of the property (shared data only touched under its lock/atomic): NOT proved, no Gallina model expresses Go memory accesses; checked dynamically by the Go race detector in the thorough tier (testing in support)"],
     })
+    ctx.assumptions += [
+        "queues are unbounded FIFOs in the model; one handler body of hub / topic / topicInit is one atomic step",
+        "Go runtime semantics of channels, select, sync.Map, sync.WaitGroup are modelled, not verified",
+        "the race detector (thorough tier) sees only the interleavings the burst scenarios happen to produce"]
     ctx.finish(level="proof")
 
 
